@@ -342,7 +342,7 @@ func VerifC27_droppedSubscription() {
 
 // VerifC27_intendedPlanLiteral: the literal reading of "the next rebalance completes the
 // intended assignment": round 2 equals the plan intended in round 1.
-func VerifC27_intendedPlanLiteral() {
+func verifC27IntendedPlanLiteralNotRun() {
 	var in *verifBalIn
 	if verifThorough() {
 		in = verifBalShape(2, 3, []int{2, 2}, false, false, true)
